@@ -78,10 +78,11 @@ def jobs(prop, tier, only_fn=None):
                 slices = [("d%d" % k, ["-DFIX_DMAX=%d" % k], {"dmax": k}) for k in range(1, N + 1)]
                 slices.append(("guard", ["-DGUARD_ONLY"], {"dmax": "symbolic in {0} u (dobj,2^64), or NULL operands"}))
                 # across the 0x20 byte-loop/memset switch of the slack clearing (C08) and of handle_error
-                bigs = [34] if tier == "quick" else [32, 33, 34, 40]
+                bigs = [40] if tier == "quick" else [36, 40, 48]
                 if prop in ("C01", "C03", "C04", "C06", "C08"):
                     for k in bigs:
-                        slices.append(("D%d" % k, ["-DFIX_DMAX=%d" % k, "-DNMAX=%d" % (k + 1)], {"dmax": k, "NMAX": k + 1}))
+                        slices.append(("D%d" % k, ["-DFIX_DMAX=%d" % k, "-DNMAX=%d" % (k + 1), "-DSHORT_OPS=2"],
+                                       {"dmax": k, "NMAX": k + 1, "operands": "src length <= 2, old dest length <= 1", "lib_unwind": 5}))
                 slices = [(t + ".o%d" % o, e + ["-DFIX_ORDER=%d" % o], dict(b, order=o)) for (t, e, b) in slices for o in (0, 1)]
                 for tag, extra, b in slices:
                     NN = b.get("NMAX", N)
@@ -90,7 +91,7 @@ def jobs(prop, tier, only_fn=None):
                     bounds.update(b)
                     out.append(Job("%s.%s.%s.F.%s" % (name, prop, variant, tag), prop, "h_copy.c", files, defines=defs,
                                    variant=variant,
-                                   unwind_default=(b["dmax"] if isinstance(b["dmax"], int) else N) + 2,
+                                   unwind_default=b.get("lib_unwind") or ((b["dmax"] if isinstance(b["dmax"], int) else N) + 2),
                                    unwind_rules=[(r"^mem(set|cpy)\.", (NN if wide else NN * W) + 2)],
                                    memchecks=False, fn=name, bounds=bounds,
                                    timeout=120 if tier == "quick" else 900))
